@@ -19,7 +19,7 @@ LDSAN  := -fsanitize=leak
 endif
 CXX    := g++
 KIT    := sim/kit
-HARNESSES := wd obj_poly obj_shapes obj_grid rows mip
+HARNESSES := wd obj_poly obj_shapes obj_grid obj_pset obj_prod rows mip
 
 all: lib $(addprefix $(B)/bin/,$(HARNESSES))
 
